@@ -107,6 +107,10 @@ pub struct Scene {
     /// true: every call passes the scene's full vertex array and only the faces select triangles
     #[serde(default)]
     pub shared_verts: bool,
+    /// mirrored viewport: the viewport matrix is built from bounds whose start is the right (bottom) edge, so NDC x (y)
+    /// increases leftwards (upwards) on the screen — e.g. a y-up viewport. Not available through Door::Camera.
+    #[serde(default)]
+    pub flip: [bool; 2],
 }
 
 pub fn sentinel_color(i: usize) -> u32 {
@@ -241,8 +245,17 @@ fn color_of_bits(b: u32) -> Color4 {
     rgba((b >> 16) as u8, (b >> 8) as u8, b as u8, (b >> 24) as u8)
 }
 
+/// viewport bounds (start_x, start_y, end_x, end_y) honouring the mirror flags
+pub fn vp_bounds(sc: &Scene) -> [u32; 4] {
+    let [l, t, r, b] = sc.vp;
+    let (sx, ex) = if sc.flip[0] { (r, l) } else { (l, r) };
+    let (sy, ey) = if sc.flip[1] { (b, t) } else { (t, b) };
+    [sx, sy, ex, ey]
+}
+
 fn viewport_matrix(sc: &Scene) -> Mat4x4<re::render::NdcToScreen> {
-    viewport(pt2(sc.vp[0], sc.vp[1])..pt2(sc.vp[2], sc.vp[3]))
+    let [sx, sy, ex, ey] = vp_bounds(sc);
+    viewport(pt2(sx, sy)..pt2(ex, ey))
 }
 
 fn draw_into<T: Target>(sc: &Scene, which: &[usize], target: &mut T, ctx: &Context, calls: &Cell<u64>, somes: &Cell<u64>, record: &std::cell::RefCell<Option<Vec<(u32, u32, f32)>>>) {
@@ -375,12 +388,12 @@ pub fn clip_poly64_off(tri: &[[f64; 4]; 3], off: f64) -> Vec<[f64; 4]> {
 
 /// Screen position of a clip-space point under the scene's viewport.
 pub fn to_screen(sc: &Scene, p: [f64; 4]) -> P2 {
-    let [l, t, r, b] = sc.vp.map(|v| v as f64);
+    let [l, t, r, b] = vp_bounds(sc).map(|v| v as f64);
     [l + (p[0] / p[3] + 1.0) / 2.0 * (r - l), t + (p[1] / p[3] + 1.0) / 2.0 * (b - t)]
 }
 
 pub fn to_ndc(sc: &Scene, s: P2) -> P2 {
-    let [l, t, r, b] = sc.vp.map(|v| v as f64);
+    let [l, t, r, b] = vp_bounds(sc).map(|v| v as f64);
     [2.0 * (s[0] - l) / (r - l) - 1.0, 2.0 * (s[1] - t) / (b - t) - 1.0]
 }
 
